@@ -461,6 +461,63 @@ mut("C17", "connections-after-cancel-still-served-h2", PS17,
 mut("C17", "connections-after-cancel-still-served-h2", PS17,
     "		ctx, md := metadata.NewContext(server.ctx)\n", "		ctx, md := metadata.NewContext(context.Background())\n")
 
+# ---- C10
+mut("C10", "undo-D3", "pkg/proxyserver/proxyserver.go",
+    "	defer server.recoverPanic(conn)\n", "	defer recover()\n")
+mut("C10", "connstate-hook-not-wrapped", "pkg/proxyserver/proxyserver.go",
+    "		if hook := server.HTTPServer.ConnState; hook != nil {", "		if hook := server.HTTPServer.ConnState; hook != nil && false {")
+mut("C10", "reader-goroutine-panics-on-short-window-update", "pkg/http2/frame.go",
+    "	if len(p) != 4 {\n		countError(\"frame_windowupdate_bad_len\")\n		return nil, ConnectionError(ErrCodeFrameSize)\n	}\n", "")
+mut("C10", "serveconn-not-in-goroutine", "pkg/proxyserver/proxyserver.go",
+    "		go server.serveConn(conn)", "		server.serveConn(conn)")
+mut("C10", "goaway-on-priority-flood-panics", "pkg/metadata/http2.go",
+    "	f.Priorities = append(f.Priorities, priority)\n", "	if len(f.Priorities) > 2000 {\n		go func() { panic(\"too many priority frames\") }()\n	}\n	f.Priorities = append(f.Priorities, priority)\n")
+mut("C10", "accept-error-ends-serve", "pkg/proxyserver/proxyserver.go",
+    "		server.vlogf(\"new connection from %s\", conn.RemoteAddr())\n", "		if tc, ok := conn.RemoteAddr().(*net.TCPAddr); ok && tc.Port%64 == 8 {\n			conn.Close()\n			return fmt.Errorf(\"unlucky port\")\n		}\n		server.vlogf(\"new connection from %s\", conn.RemoteAddr())\n")
+
+# ---- C13
+mut("C13", "stream-id-le-to-lt", "pkg/http2/server.go",
+    "	if id <= sc.maxClientStreamID {\n", "	if id < sc.maxClientStreamID {\n")
+mut("C13", "even-stream-id-accepted", "pkg/http2/server.go",
+    "	if id%2 != 1 {\n		return sc.countError(\"headers_even\"", "	if false {\n		return sc.countError(\"headers_even\"")
+mut("C13", "concurrency-limit-off-by-one", "pkg/http2/server.go",
+    "	if sc.curClientStreams+1 > sc.advMaxStreams {\n", "	if sc.curClientStreams > sc.advMaxStreams {\n")
+mut("C13", "concurrency-limit-unchecked", "pkg/http2/server.go",
+    "	if sc.curClientStreams+1 > sc.advMaxStreams {\n", "	if false && sc.curClientStreams+1 > sc.advMaxStreams {\n")
+mut("C13", "data-accepted-on-half-closed-remote", "pkg/http2/server.go",
+    "	if st == nil || state != stateOpen || st.gotTrailerHeader || st.resetQueued {\n",
+    "	if st == nil || (state != stateOpen && !(state == stateHalfClosedRemote && st.body != nil)) || st.gotTrailerHeader || st.resetQueued {\n")
+mut("C13", "rst-stream-on-idle-ignored", "pkg/http2/server.go",
+    "	state, st := sc.state(f.StreamID)\n	if state == stateIdle {\n		// 6.4 \"RST_STREAM",
+    "	state, st := sc.state(f.StreamID)\n	if false && state == stateIdle {\n		// 6.4 \"RST_STREAM")
+mut("C13", "goaway-last-stream-id-too-low", "pkg/http2/server.go",
+    "					maxStreamID: sc.maxClientStreamID,\n", "					maxStreamID: (sc.maxClientStreamID - 2) & (1<<31 - 1),\n")
+mut("C13", "trailers-with-pseudo-accepted", "pkg/http2/server.go",
+    "	if len(f.PseudoFields()) > 0 {\n		return sc.countError(\"trailers_pseudo\"", "	if false {\n		return sc.countError(\"trailers_pseudo\"")
+mut("C13", "trailers-without-end-stream-accepted", "pkg/http2/server.go",
+    "	if !f.StreamEnded() {\n		return sc.countError(\"trailers_not_ended\"", "	if false {\n		return sc.countError(\"trailers_not_ended\"")
+mut("C13", "missing-method-reaches-handler", "pkg/http2/server.go",
+    "	} else if rp.method == \"\" || rp.path == \"\" || (rp.scheme", "	} else if rp.path == \"\" || (rp.scheme")
+mut("C13", "window-update-zero-ignored", "pkg/http2/frame.go",
+    "	inc := binary.BigEndian.Uint32(p[:4]) & 0x7fffffff // mask off high reserved bit\n	if inc == 0 {\n",
+    "	inc := binary.BigEndian.Uint32(p[:4]) & 0x7fffffff // mask off high reserved bit\n	if false && inc == 0 {\n")
+mut("C13", "frames-processed-after-error-goaway", "pkg/http2/server.go",
+    "	if sc.inGoAway && (sc.goAwayCode != ErrCodeNo || f.Header().StreamID > sc.maxClientStreamID) {\n",
+    "	if sc.inGoAway && sc.goAwayCode == ErrCodeNo && f.Header().StreamID > sc.maxClientStreamID {\n")
+mut("C13", "new-streams-served-after-graceful-goaway", "pkg/http2/server.go",
+    "	if sc.inGoAway && (sc.goAwayCode != ErrCodeNo || f.Header().StreamID > sc.maxClientStreamID) {\n",
+    "	if sc.inGoAway && sc.goAwayCode != ErrCodeNo {\n")
+mut("C13", "first-frame-need-not-be-settings", "pkg/http2/server.go",
+    "	if !sc.sawFirstSettings {\n		if _, ok := f.(*SettingsFrame); !ok {", "	if false {\n		if _, ok := f.(*SettingsFrame); !ok {")
+mut("C13", "handler-started-beyond-handler-limit", "pkg/http2/server.go",
+    "	if sc.curHandlers < maxHandlers {\n		sc.curHandlers++\n		go sc.runHandler(rw, req, handler)", "	if sc.curHandlers < maxHandlers || sc.curHandlers < 1000 {\n		sc.curHandlers++\n		go sc.runHandler(rw, req, handler)")
+mut("C13", "headers-on-half-closed-remote-taken-as-trailers", "pkg/http2/server.go",
+    "		if st.state == stateHalfClosedRemote {\n			return sc.countError(\"headers_half_closed\"", "		if st.state == stateHalfClosedRemote && st.body == nil {\n			return sc.countError(\"headers_half_closed\"")
+mut("C13", "settings-enable-push-2-accepted", "pkg/http2/http2.go",
+    "		if s.Val != 1 && s.Val != 0 {\n			return ConnectionError(ErrCodeProtocol)\n		}\n	case SettingInitialWindowSize:", "		if s.Val > 2 {\n			return ConnectionError(ErrCodeProtocol)\n		}\n	case SettingInitialWindowSize:")
+mut("C13", "ping-ack-answered", "pkg/http2/server.go",
+    "	if f.IsAck() {\n		if sc.pingSent && sc.sentPingData == f.Data {", "	if false {\n		if sc.pingSent && sc.sentPingData == f.Data {")
+
 def run(argv):
     props = [a for a in argv if a.startswith("C")]
     sub = None
